@@ -99,6 +99,11 @@ class FakeRows:
         import numpy as np
         self.n = n
         self.dtype = np.dtype(np.uint32)
+        self.ndim = 1
+        self.shape = (n,)
+        self.size = n
+        self.itemsize = 4
+        self.nbytes = 4 * n
 
     def __len__(self):
         return self.n
